@@ -1,7 +1,7 @@
 package main
 
 // C16: set and record builders. A case is a sequence of builder operations on one real
-// entities.Set (NewSet(false)); every "O" takes a snapshot: GetSetType/GetSetLength/
+// entities.Set (NewSet(false); with the prefix DEC: NewSet(true), see c16Dec); every "O" takes a snapshot: GetSetType/GetSetLength/
 // GetHeaderBuffer, every record's GetTemplateID/GetFieldCount/GetRecordLength/GetBuffer/
 // GetMinDataRecordLen, exporter.CreateIPFIXMsg's output, whether a fresh set replaying the
 // operations since the last ResetSet looks the same (F) and whether the same sequence with all
@@ -17,7 +17,40 @@ import (
 
 func init() { register("C16", runC16) }
 
+// c16Dec runs a case on the decoding variant of the builder (NewSet(true), as the collector
+// uses it): per op its result, per "O" the same snapshot plus V (the three add forms agree).
+func c16Dec(toks []string) string {
+	ops, _ := parseSetOps(toks)
+	s := entities.NewSet(true)
+	var out []string
+	for i, o := range ops {
+		switch o.kind {
+		case 'O':
+			snap := snapshotSet(s, true, o.obs)
+			v := true
+			for _, form := range []string{"1", "X", "2"} {
+				alt := entities.NewSet(true)
+				for _, p := range ops[:i] {
+					if p.kind != 'O' {
+						applyOp(alt, p, form)
+					}
+				}
+				if snapshotSet(alt, true, o.obs) != snap {
+					v = false
+				}
+			}
+			out = append(out, snap+" V "+ShowBool(v))
+		default:
+			out = append(out, applyOp(s, o, ""))
+		}
+	}
+	return strings.Join(out, " ")
+}
+
 func c16One(toks []string) string {
+	if len(toks) > 0 && toks[0] == "DEC" {
+		return c16Dec(toks[1:])
+	}
 	ops, _ := parseSetOps(toks)
 	s := entities.NewSet(false)
 	var out []string
@@ -203,6 +236,27 @@ func runC16(env *Env) {
 	for _, cnt := range []int{1, 255, 256, 4095, 16380, 16383, 16384} {
 		env.Count("shape/many-records")
 		emit(fmt.Sprintf("P D 256 N %d A 2 256 1 9 3 0 4 u32 %d L O 1 2 3", cnt, cnt))
+	}
+	// the decoding variant: fixed shapes (new set, data set with the three add forms, template
+	// set, stale length after a reset) and random sequences
+	for _, c := range []string{
+		"DEC O 1 2 3",
+		"DEC L R O 1 2 3",
+		"DEC P D 300 A 1 300 1 7 1 0 1 u8 9 A 2 300 1 7 1 0 1 u8 9 A X2 300 2 7 1 0 1 u8 9 5 13 0 65535 str hex 4142 L O 1 2 3",
+		"DEC P T 256 A 1 256 2 7 1 0 1 u8 0 8 2 29305 2 u16 0 O 1 2 3 R O 4 5 6 P D 256 A 2 256 1 7 1 0 1 u8 1 O 7 8 9",
+		"DEC A 2 256 1 7 1 0 1 u8 0 O 1 2 3 P U 9 O 1 2 3",
+		"DEC P D 256 A X-1 256 1 7 1 0 1 u8 1 A 1 256 1 4 18 0 4 ip hex 20010db8000000000000000000000001 O 1 2 3",
+	} {
+		env.Count("shape/decoding-fixed")
+		emit(c)
+	}
+	nd := 250
+	if env.Thorough() {
+		nd = 6000
+	}
+	for i := 0; i < nd; i++ {
+		env.Count("seq/decoding")
+		emit("DEC " + genC16Seq(env, 20))
 	}
 	n := 1500
 	maxOps := 30
